@@ -264,7 +264,7 @@ func paramMappings(params map[string]spec.Parameter) (map[string]map[string]stri
 			continue
 		}
 
-		if val, ok := seenIDs[p.Name]; ok {
+		if val, ok := seenIDs[strings.ToLower(swag.ToGoName(p.Name))]; ok {
 			previous := val.(struct{ id, in string })
 			idMapping[p.In][p.Name] = swag.ToGoName(id)
 			// rewrite the previously found one
